@@ -275,8 +275,9 @@ def write_evidence(ctx, mod, violations_unlisted, extra=None):
         jsonschema.validate(ev, schema)
     except FileNotFoundError:
         pass
-    os.makedirs(os.path.join(VERIF, "evidence"), exist_ok=True)
-    path = os.path.join(VERIF, "evidence", f"{ctx.prop_id}.json")
+    evdir = os.environ.get("VERIF_EVIDENCE_DIR") or os.path.join(VERIF, "evidence")
+    os.makedirs(evdir, exist_ok=True)
+    path = os.path.join(evdir, f"{ctx.prop_id}.json")
     tmp = path + ".tmp"
     with open(tmp, "w") as f:
         json.dump(ev, f, indent=1, default=str, ensure_ascii=True)
